@@ -581,7 +581,19 @@ func (g *ProgGen) Stmt(indent, depth int) {
 		}
 		v := vs[g.R.Intn(len(vs))]
 		g.feat("assign")
-		g.w(indent, v.name+" = "+g.Expr(t, g.O.ExprDepth))
+		e := g.Expr(t, g.O.ExprDepth)
+		if (t == TNums || t == TNumss) && (g.inLoop > 0 || true) && (strings.Contains(e, "+") || strings.Contains(e, "*")) {
+			// an array assigned a concatenation or repetition of arrays grows geometrically when the
+			// statement is executed repeatedly (in a loop, or in a function called from one): programs
+			// that need astronomical time and memory say nothing about the properties
+			for _, a := range append(g.varsOf(TNums), g.varsOf(TNumss)...) {
+				if strings.Contains(e, a.name) {
+					e = g.literal(t, 1)
+					break
+				}
+			}
+		}
+		g.w(indent, v.name+" = "+e)
 	case 5:
 		// element assignment
 		if as := g.varsOf(TNums); len(as) > 0 && g.R.Intn(2) == 0 {
